@@ -440,7 +440,27 @@ def run(ck, prog, ctx):
     co = prog.body(T + "child_of")
     if ck.anchor("FIELD", "HpoTerm::child_of", co):
         cons = [(bi, t) for bi, t in co.calls() if t.callee.res == "term::group::HpoGroup::contains"]
-        if len(cons) != 1:
+        deleg = [(bi, t) for bi, t in co.calls() if t.callee.res in prog.bodies and t.callee.res != "term::group::HpoGroup::contains" and len(t.args) == 2
+                 and params_of(pvn.of_operand(co, t.args[0]), co.id) == {1} and params_of(pvn.of_operand(co, t.args[1]), co.id) == {2}]
+        straight = not any(co.blocks[x].term.k == "switch" for x in co.reach)
+        if len(cons) != 1 and len(deleg) == 1 and straight and any(t.callee.method in ("is_some", "is_ok") for _, t in co.calls()):
+            # `other_query(self, other).is_some()`: every explicit `Some` the delegate returns is an answer "is a descendant", and has to
+            # stand behind a positive membership test of other.id in self's (direct or all) parents
+            g = prog.bodies[deleg[0][1].callee.res]
+            medges = []
+            for gbi, gt in g.calls():
+                if gt.callee.res == "term::group::HpoGroup::contains":
+                    fr = field_names(pv.of_operand(g, gt.args[0]), "::HpoTerm")
+                    fk = field_names(pv.of_operand(g, gt.args[1]), "::HpoTerm")
+                    if fr & {"all_parents", "parents"} and "children" not in fr and params_of(pv.of_operand(g, gt.args[0]), g.id) == {1} and "id" in fk and params_of(pv.of_operand(g, gt.args[1]), g.id) == {2}:
+                        medges += positive_edges(g, pvn, gbi)
+            somes = [(pos, st) for pos, st in g.stmts() if st.k == "assign" and st.rv["k"] == "agg" and st.rv.get("variant") == "Some" and st.place.local == 0]
+            loose = [(pos, st) for pos, st in somes if not any(g.edge_dominates(e, pos[0]) for e in medges)]
+            if loose:
+                ck.ob("FIELD", "child_of", False, "child_of answers through %s(..).is_some(), which returns `Some` at line %s without a positive test of other.id in self's ancestor sets: a pair outside the closure (the term itself) is reported as descendant" % (g.short, loose[0][1].line), where=co.where(deleg[0][1].line))
+            else:
+                ck.undecided("FIELD", "child_of", "child_of delegates to %s; only its explicit `Some` results were compared with the closure membership" % g.short, where=co.where())
+        elif len(cons) != 1:
             ck.undecided("FIELD", "child_of", "membership test not recognised", where=co.where())
         else:
             bi, t = cons[0]
